@@ -117,7 +117,8 @@ def execute(spec):
         sk = dict(spec["sched"])
         sk["seed"] = sk["seed"] + seed_shift
         return sysrun.run_system(scaled_text, 1, sk, n_generators=1, faults=[dict(spec["fault"])] if spec.get("fault") else None, props=(),
-                                 system_molweight=scaled_sysw, max_steps=10 ** 7, wall=600, check_generate=False)
+                                 system_molweight=scaled_sysw, max_steps=10 ** 7, wall=600, check_generate=False,
+                                 screen_first=(spec["sched"]["seed"] + seed_shift) % 3 == 0)
 
     r = one(0)
     if r.get("harness_error"):
